@@ -51,7 +51,7 @@ def run_case(args):
     shutil.rmtree(outdir, ignore_errors=True)
     os.makedirs(outdir)
     base = os.path.splitext(os.path.basename(inp))[0]
-    argv = ["./chibicc"] + opts
+    argv = ["./chibicc" if variant != 2 else os.path.join(stage, "chibicc")] + opts    # variant 2: invoked by its full (long) path
     produces = None
     if "-E" not in opts and "-M" not in opts:
         ext = ".s" if "-S" in opts else ".o"
@@ -71,10 +71,15 @@ def run_case(args):
         p = os.path.join(outdir, f)
         if f.endswith(".o"):   # the assembler records the working directory (DW_AT_comp_dir), which differs per stage by construction
             core.run_limited(["strip", "-g", p], timeout=60)
-        files[f] = h(open(p, "rb").read())
+        data = open(p, "rb").read()
+        if variant == 2 or "-S" in opts or "-E" in opts:
+            # the built-in include directory is named relative to argv[0]: that name legitimately follows the invocation path
+            data = data.replace((stage + "/include").encode(), b"@INC").replace(b"./include", b"@INC")
+        files[f] = h(data)
     # diagnostics may mention the scratch output dir (differs per run by construction): normalise it
     # ... and the assembler/linker quote the driver's mkstemp names when they reject something
-    norm = lambda b: re.sub(rb"/tmp/chibicc-[A-Za-z0-9]{6}", b"@TMP", b.replace(outdir.encode(), b"@OUT"))
+    norm = lambda b: re.sub(rb"/tmp/chibicc-[A-Za-z0-9]{6}", b"@TMP", b.replace(outdir.encode(), b"@OUT")
+                            .replace((stage + "/include").encode(), b"@INC").replace(b"./include", b"@INC"))
     shutil.rmtree(outdir, ignore_errors=True)
     return (str(st), h(norm(out)), h(norm(err)), tuple(sorted(files.items()))), norm(err)[:300].decode("utf-8", "replace")
 
@@ -134,6 +139,31 @@ def corpus(ctx):
             p = os.path.join(gd, "c19_%d.c" % k)
             open(p, "w").write(src)
             inputs.append(("gen/c19_%d" % k, p))
+        # every operator applied to operands of every type class (valid and constraint-violating programs alike): the
+        # self-compiled compiler must accept, reject and translate them exactly like the gcc-built one
+        pre = ("struct S { int m; } s, t; union U { int a; double b; } un; void vf(void); int fn(int); int arr[3]; int i, j; long l; "
+               "unsigned u; double d; float fl; long double ld; int *p, *q; _Bool b; enum E { EA, EB } en; char c;\n")
+        ops = {"void": "vf()", "int": "i", "long": "l", "uint": "u", "double": "d", "float": "fl", "ldouble": "ld", "ptr": "p", "struct": "s",
+               "union": "un", "func": "fn", "array": "arr", "bool": "b", "enum": "en", "char": "c", "null": "0", "str": '"x"'}
+        k = 0
+        for o in ["+", "-", "*", "/", "%", "&", "|", "^", "<<", ">>", "<", "<=", "==", "!=", "&&", "||", "=", "+=", "-=", ","]:
+            for an, a in ops.items():
+                body = "".join("long g%d_%s(void) { return (long)(%s %s %s); }\n" % (k, bn, a, o, bb) for bn, bb in ops.items())
+                # one program per (operator, left class, right class): a rejected function must not hide the others
+                for bn, bb in ops.items():
+                    p = os.path.join(gd, "op_%d.c" % k)
+                    open(p, "w").write(pre + "long g(void) { return (long)(%s %s %s); }\n" % (a, o, bb))
+                    inputs.append(("gen/op/%s/%s,%s" % (o, an, bn), p)); k += 1
+        forms = ["-%s", "+%s", "!%s", "~%s", "*%s", "&%s", "++%s", "%s--", "sizeof(%s)", "(int)%s", "(void)%s", "(double)%s", "%s ? 1 : 2", "1 ? %s : 0",
+                 "%s(1)", "%s[1]", "%s.m", "%s->m", "_Alignof(%s)"]
+        stmts = ["if (%s) return 1;", "while (%s) return 1;", "for (;%s;) return 1;", "do return 1; while (%s);", "switch (%s) { case 1: return 1; }", "return %s;",
+                 "int x = %s; return x;", "int x[2] = { %s }; return x[0];", "struct S x = %s; return x.m;", "vf(%s);", "fn(%s);"]
+        for fm in forms + stmts:
+            for an, a in ops.items():
+                p = os.path.join(gd, "op_%d.c" % k)
+                txt = ("long g(void) { return (long)(%s); }\n" % (fm % a)) if fm in forms else ("long g(void) { %s return 0; }\n" % (fm % a))
+                open(p, "w").write(pre + txt)
+                inputs.append(("gen/form/%s/%s" % (fm.replace("%s", "_"), an), p)); k += 1
     except Exception as e:   # other checks' generators are optional corpus providers
         ctx.notes.append("generator corpus partly unavailable: %r" % (e,))
     return inputs
@@ -164,13 +194,41 @@ def run(ctx):
         for oi, opts in enumerate(optsets):
             if fam in ("seed", "gen") and oi >= (3 if ctx.tier == "quick" else 99):
                 continue
+            if (name.startswith("gen/op/") or name.startswith("gen/form/")) and oi >= 1:
+                continue
             extra = ["-I" + os.path.join(ctx.tree, "test")] if fam == "test" else []
             key = (name, " ".join(opts))
             stages = [("S1", s1), ("S2", s2)] + ([("S3", s3)] if fam == "src" else [])
             for sn, sd in stages:
                 jobs.append((key, sn, (sd, path, opts + extra, os.path.join(ctx.work, "o", "%d" % len(jobs)), 0)))
-            if oi < 2:   # (c) determinism of S1: second run, ASLR off, bigger environment
+            if oi < 2 and not (name.startswith("gen/op/") or name.startswith("gen/form/")):   # (c) determinism of S1: second run, ASLR off, bigger environment
                 jobs.append((key, "S1'", (s1, path, opts + extra, os.path.join(ctx.work, "o", "%d" % len(jobs)), 1)))
+    # (d) the path the compiler is invoked through must not matter: S1 reached through symlinked directories whose names are
+    # 60..1000 characters long (chibicc, include/ linked inside), on inputs that use the built-in headers
+    hdr_inputs = [(n, p) for n, p in inputs if n in ("test/stdhdr.c", "test/varargs.c", "test/offsetof.c", "test/atomic.c", "src/main.c")]
+    hp = os.path.join(ctx.work, "gen", "hdrs.c")
+    open(hp, "w").write("".join("#include <%s>\n" % h for h in sorted(os.listdir(os.path.join(s1, "include")))) + "size_t vp_n = sizeof(va_list);\n")
+    hdr_inputs.append(("gen/builtin-headers", hp))
+    longdirs = []
+    for L in (60, 140, 200, 400, 1000):
+        d = os.path.join(ctx.work, "lp%d" % L)
+        parts = []
+        rest = L
+        while rest > 0:
+            parts.append("d" * min(rest, 200)); rest -= 200
+        full = os.path.join(d, *parts)
+        os.makedirs(full)
+        os.symlink(os.path.join(s1, "chibicc"), os.path.join(full, "chibicc"))
+        os.symlink(os.path.join(s1, "include"), os.path.join(full, "include"))
+        longdirs.append((L, full))
+    for name, path in hdr_inputs:
+        extra = ["-I" + os.path.join(ctx.tree, "test")] if name.startswith("test/") else []
+        for opts in (["-S"], ["-E"]):
+            key = (name, " ".join(opts))
+            if not any(j[0] == key and j[1] == "S1" for j in jobs):
+                jobs.append((key, "S1", (s1, path, opts + extra, os.path.join(ctx.work, "o", "%d" % len(jobs)), 0)))
+            for L, full in longdirs:
+                jobs.append((key, "S1@path%d" % L, (full, path, opts + extra, os.path.join(ctx.work, "o", "%d" % len(jobs)), 2)))
     have_setarch = core.sh(["setarch", "x86_64", "-R", "true"])[0] == 0
     if not have_setarch:
         jobs = [j for j in jobs if j[1] != "S1'"]
@@ -185,14 +243,14 @@ def run(ctx):
         name, opts = key
         base = d["S1"][0]
         outcomes.add(base[0] + ("/out" if base[3] else ""))
-        for sn in ("S2", "S3", "S1'"):
+        for sn in ["S2", "S3", "S1'"] + sorted(x for x in d if x.startswith("S1@")):
             if sn not in d:
                 continue
             ncmp += 1
             if d[sn][0] != base:
                 what = [w for w, x, y in zip(("status", "stdout", "stderr", "files"), d[sn][0], base) if x != y]
                 fam = name.split("/")[0]
-                cls = {"S2": "stage1-vs-stage2", "S3": "stage1-vs-stage3", "S1'": "nondeterministic"}[sn]
+                cls = {"S2": "stage1-vs-stage2", "S3": "stage1-vs-stage3", "S1'": "nondeterministic"}.get(sn, "depends-on-invocation-path")
                 a = d[sn][2]
                 src = open(a[1], errors="replace").read()
                 sig = "C12|%s|%s|%s|%s" % (cls, name if fam in ("src", "test") else fam, opts.split()[0], "+".join(what))
